@@ -141,5 +141,242 @@ def module_span(text, modpath):
     return lo, hi
 
 
+
+UNSUPPORTED = re.compile(r"\.chain\(|\.enumerate\(|\.flatten\(|\.flat_map\(|\.filter_map\(|\.find_map\(|"
+                         r"\.take_while\(|\.skip_while\(|\.try_fold\(|\.peekable\(|\.partition|\.unique\(|"
+                         r"cartesian_product|\.fold\(|\.unzip\(|\.extend\(|\.then\(|write!\(|writeln!\(|"
+                         r"\.sort_by|\.sort\(|\.dedup|Box::leak|thread_local|\.with\(\||\.borrow\(\)|\.rev\(\)\.|"
+                         r"\.sum\(|\.sum::|\.lines\(|\.split\(|\.last\(\)|\.position\(|\.max\(|\.min\(|"
+                         r"\.iter_mut\(|\.drain\(|\.retain\(|\.zip\(|assert_eq!|assert!\(|\.entry\(|dyn\s|impl\s+Iterator|"
+                         r"\.into_iter\(\)\s*\.|unsafe\s*\{|\.as_mut\(|todo!|\.windows\(|\.join\(|\.concat\(")
+LABELLED_BLOCK = re.compile(r"'[a-z_]\w*:\s*\{")
+
+DROP_DERIVES = ('Error', 'Deserialize', 'Serialize', 'thiserror::Error', 'serde::Deserialize', 'serde::Serialize')
+
+
+def strip_noise(src, keep_debug=True):
+    """T1/T2/T6 for whole inlined files"""
+    log = []
+    src = '\n'.join(l for l in src.split('\n') if not l.lstrip().startswith('//!'))
+
+    def fix(m):
+        items = [x.strip() for x in m.group(2).split(',') if x.strip()]
+        extra = ''
+        kept = []
+        for x in items:
+            if x in DROP_DERIVES or (x == 'Debug' and not keep_debug):
+                log.append('derive %s dropped' % x)
+            else:
+                kept.append(x)
+        items = kept
+        if 'Clone' in items and 'Copy' not in items:
+            items.remove('Clone')
+            hdr = re.match(r'(?:\s*(?:#\[[^\]]*\]|///[^\n]*)\s*\n)*\s*pub(?:\([a-z]+\))? (?:struct|enum) (\w+)(<[^>{(]*>)?', src[m.end():])
+            if hdr:
+                name, gen = hdr.group(1), hdr.group(2) or ''
+                params = [g.strip() for g in gen.strip('<>').split(',') if g.strip()]
+                names = ', '.join(p.split(':')[0].strip() for p in params)
+                bounds = ', '.join((p if p.startswith("'") else p.split(':')[0].strip() + ': Clone') for p in params)
+                extra = ('%simpl%s Clone for %s%s { #[verifier::external_body] fn clone(&self) -> (r: Self) ensures r == *self { unimplemented!() } }\n'
+                         % (m.group(1), ('<' + bounds + '>') if params else '', name, ('<' + names + '>') if params else ''))
+                log.append('derive Clone on %s replaced by trusted impl (A-CLONE)' % name)
+            else:
+                log.append('derive Clone dropped (no header found)')
+        return extra + ((m.group(1) + '#[derive(%s)]\n' % ', '.join(items)) if items else '')
+    src = re.sub(r'(?m)^([ \t]*)#\[derive\(([^\]]*)\)\]\n', fix, src)
+    src, c = strip_attrs(src, ['error', 'serde', 'allow', 'from', 'source', 'must_use', 'inline'])
+    if c:
+        log.append('%d attributes (#[error]/#[serde]/#[allow]/..) stripped' % c)
+    src, c = strip_log_macros(src)
+    if c:
+        log.append('%d log macro statements removed (T6)' % c)
+    src = re.sub(r'(?m)^use (thiserror|log|anyhow|insta|serde)(::[^;]*)?;\n', '', src)
+    src = re.sub(r'(?m)^#\[cfg\(test\)\]\n(pub )?mod \w+;\n', '', src)
+    src = re.sub(r'(?m)^mod tests;\n', '', src)
+    # inline #[cfg(test)] mod tests { ... }
+    masked = mask(src)
+    out = []
+    last = 0
+    for m in re.finditer(r'(?m)^[ \t]*#\[cfg\(test\)\]\s*\n[ \t]*(?:pub )?mod \w+\s*\{', masked):
+        if m.start() < last:
+            continue
+        k = m.end() - 1
+        e = match_close(masked, k)
+        out.append(src[last:m.start()])
+        last = e + 1
+        log.append('#[cfg(test)] module dropped (T1)')
+    out.append(src[last:])
+    return ''.join(out), log
+
+
+FN_HDR = re.compile(r'(?m)^([ \t]*)((?:pub(?:\([a-z]+\))? )?(?:const )?(?:async )?(?:unsafe )?(?:extern "C" )?fn (\w+))')
+
+
+def fn_spans(src, masked=None):
+    masked = masked or mask(src)
+    res = []
+    for m in FN_HDR.finditer(masked):
+        try:
+            k, ch = body_open(masked, m.end())
+        except ValueError:
+            continue
+        if ch == ';':
+            continue
+        try:
+            e = match_close(masked, k)
+        except ValueError:
+            continue
+        res.append((m.group(3), m.start(), k, e + 1, m.group(1)))
+    return res
+
+
+def mark_external_auto(src, modname, report, extra_rx=None):
+    """add #[verifier::external_body] to fns whose body uses constructs Verus cannot specify (DESIGN section 2)"""
+    masked = mask(src)
+    ins = []
+    for name, s, k, e, ind in fn_spans(src, masked):
+        body = masked[k:e]
+        why = UNSUPPORTED.search(body) or LABELLED_BLOCK.search(src[k:e]) or (extra_rx.search(body) if extra_rx else None)
+        if why:
+            ins.append((s, ind + '#[verifier::external_body] /*vx:auto %s*/\n' % why.group(0).strip().replace('*/', '')))
+            report.append('%s::%s (%s)' % (modname, name, why.group(0).strip()))
+    out = []
+    last = 0
+    for pos, t in sorted(ins):
+        out.append(src[last:pos])
+        out.append(t)
+        last = pos
+    out.append(src[last:])
+    return ''.join(out)
+
+
+def reroot_uses(src, this_crate, all_crates):
+    for c in all_crates:
+        src = re.sub(r'(?<![\w:])%s::' % c, 'crate::%s::' % c, src)
+    src = re.sub(r'(?<![\w:])crate::(?!(%s)::)' % '|'.join(all_crates), 'crate::%s::' % this_crate, src)
+    return src
+
+
+def _read_module(base, name, log, depth=0):
+    """read module `name` under directory base (name.rs or name/mod.rs), inlining nested `mod x;`"""
+    p = os.path.join(base, name + '.rs')
+    sub = os.path.join(base, name)
+    if not os.path.exists(p):
+        p = os.path.join(base, name, 'mod.rs')
+    if not os.path.exists(p):
+        from splice import LostAnchor
+        raise LostAnchor('module file for %s not found under %s' % (name, base))
+    raw = open(p).read()
+    src, lg = strip_noise(raw)
+    log += ['%s: %s' % (os.path.relpath(p, base), x) for x in lg]
+    recs = [(p, hashlib.sha256(raw.encode()).hexdigest())]
+
+    def inl(mm):
+        subname = mm.group(2)
+        if subname in ('tests', 'test'):
+            return ''
+        try:
+            t, r = _read_module(sub, subname, log, depth + 1)
+        except Exception:
+            return ''
+        recs.extend(r)
+        return '%smod %s {\nuse vstd::prelude::*;\n%s\n}\n' % (mm.group(1) or '', subname, t)
+    src = re.sub(r'(?m)^(pub(?:\([a-z]+\))? )?mod (\w+);\n', inl, src)
+    return src, recs
+
+
 def inline_crate(repo, arg, subs, unit):
-    raise NotImplementedError
+    """inline <crate_mod_name> <crate src dir> mods=a,b,r#type:type all=<crate names> [nolib]"""
+    a = arg.split()
+    cname, rel = a[0], a[1]
+    mods, allc, nolib, keep_debug = [], [cname], False, True
+    for kv in a[2:]:
+        if kv.startswith('mods='):
+            mods = kv[5:].split(',')
+        elif kv.startswith('all='):
+            allc = kv[4:].split(',')
+        elif kv == 'nolib':
+            nolib = True
+    base = os.path.join(repo, rel)
+    log, recs, report = [], [], []
+    parts = []
+    libp = os.path.join(base, 'lib.rs')
+    if os.path.exists(libp) and not nolib:
+        lib, lg = strip_noise(open(libp).read())
+        lib = re.sub(r'(?m)^(pub )?mod [\w#]+;\n', '', lib)
+        included = set(m.split(':')[0] for m in mods)
+
+        def keep_use(mm):
+            return mm.group(0) if mm.group(2) in included else ''
+        lib = re.sub(r'(?ms)^(pub use )([\w#]+)(::.*?;\n)', keep_use, lib)
+        # anything else in lib.rs (fns, impls) is dropped unless a `libitems` directive keeps it
+        lib = '\n'.join(l for l in lib.split('\n') if l.startswith('pub use ') or l.startswith('use '))
+        parts.append(lib)
+    files = []
+    for m in mods:
+        modname, fname = (m.split(':') + [None])[:2]
+        fname = fname or modname
+        src, r = _read_module(base, fname, log)
+        files += r
+        src, c = hoist_closure_patterns(src)
+        if c:
+            log.append('%s: %d closure parameter patterns hoisted (T5)' % (fname, c))
+        src, c = pub_fields(src)
+        if c:
+            log.append('%s: %d private fields / pub(crate) items made pub (T3)' % (fname, c))
+        src = mark_external_auto(src, '%s::%s' % (cname, modname), report)
+        parts.append('pub mod %s {\nuse vstd::prelude::*;\n%s\n}\n' % (modname, src))
+    body = '\n'.join(parts)
+    body = reroot_uses(body, cname, allc)
+    text = '// ---- vx:inline crate %s from %s (modules %s) ----\npub mod %s {\nuse vstd::prelude::*;\n%s\n}\n// ---- vx:end-inline %s ----' % (
+        cname, rel, ','.join(mods), cname, body, cname)
+    rec = dict(unit=unit.id, file=rel, item='crate %s modules %s' % (cname, ','.join(mods)),
+               sha256=hashlib.sha256(''.join(h for _, h in files).encode()).hexdigest(),
+               files=[dict(file=os.path.relpath(p, repo), sha256=h) for p, h in files],
+               transformations=[dict(rule='T1/T2/T5/T6', what=x) for x in log])
+    # sub-directives: rewrite / external
+    for s_ in subs:
+        w = s_.split(None, 1)
+        if w[0] == 'rewrite':
+            m = re.match(r'(\S+)\s+(\d+|\*)\s+(".*?(?<!\\)")\s*=>\s*(".*")\s*$', w[1], re.S)
+            import json as _j
+            rule, cnt = m.group(1), m.group(2)
+            frm, to = _j.loads(m.group(3)), _j.loads(m.group(4))
+            c = text.count(frm)
+            if (cnt != '*' and c != int(cnt)) or c == 0:
+                from splice import LostAnchor
+                raise LostAnchor('inline rewrite %s: %r occurs %d times, expected %s' % (rule, frm, c, cnt))
+            text = text.replace(frm, to)
+            t = dict(rule=rule, frm=frm, to=to, count=c, item=rec['item'])
+            rec['transformations'].append(t)
+            unit.transforms.append(t)
+        elif w[0] == 'rewrite_re':
+            m = re.match(r'(\S+)\s+(\d+|\*)\s+(".*?(?<!\\)")\s*=>\s*(".*")\s*$', w[1], re.S)
+            import json as _j
+            rule, cnt = m.group(1), m.group(2)
+            frm, to = _j.loads(m.group(3)), _j.loads(m.group(4))
+            text, c = re.subn(frm, to, text)
+            if (cnt != '*' and c != int(cnt)) or c == 0:
+                from splice import LostAnchor
+                raise LostAnchor('inline rewrite_re %s: %r matched %d times, expected %s' % (rule, frm, c, cnt))
+            t = dict(rule=rule, frm_regex=frm, to=to, count=c, item=rec['item'])
+            rec['transformations'].append(t)
+            unit.transforms.append(t)
+        elif w[0] == 'external':
+            # force external_body on fn <name> (optionally module-qualified: mod::name)
+            target = w[1].strip()
+            modp, _, fname = target.rpartition('::')
+            lo, hi = module_span(text, cname + ('::' + modp if modp else ''))
+            masked = mask(text)
+            from splice import find_fn
+            nth = 0
+            mm = re.match(r'(\w+)#(\d+)$', fname)
+            if mm:
+                fname, nth = mm.group(1), int(mm.group(2))
+            fs, _, _, _ = find_fn(text, masked, fname, nth, lo, hi)
+            text = text[:fs] + '#[verifier::external_body] /*vx:unit-external*/\n' + text[fs:]
+            report.append('%s::%s (unit directive)' % (cname, target))
+        else:
+            from vx import Undecided
+            raise Undecided('template: unknown inline sub-directive %r' % s_)
+    return text, [rec], report
